@@ -422,9 +422,9 @@ def make_modules():
             self.fmt = fmt
             self._s = _struct.Struct(fmt)
             self.size = self._s.size
-            assert fmt[0] in "<>" and all(ch in "QIHB" for ch in fmt[1:]), fmt
+            assert fmt[0] in "<>!" and all(ch in "QILHB" for ch in fmt[1:]), fmt  # "!" = network (big-endian), standard sizes
             self.order = "little" if fmt[0] == "<" else "big"
-            self.sizes = [{"Q": 8, "I": 4, "H": 2, "B": 1}[ch] for ch in fmt[1:]]
+            self.sizes = [{"Q": 8, "I": 4, "L": 4, "H": 2, "B": 1}[ch] for ch in fmt[1:]]
 
         def pack(self, *vals):
             if all(isinstance(v, builtins.int) for v in vals):
